@@ -126,4 +126,4 @@ def solution_level_after_diversify(case, detail, m):
         n.get("op") in ("diversify", "infeasible_search") and any(_re.match(rx, n.get("what", "")) for rx in rxs) for n in notes)
 
 
-PREDICATES = {"marker_relation_only": marker_relation_only, "solution_level_after_diversify_histories": solution_level_after_diversify}
+PREDICATES = {"marker_relation_only": marker_relation_only}
